@@ -81,9 +81,7 @@ class Arms:
         sc = F.crate("postcard_schema")
         self.dmt = [v["name"] for v in sc.adts["postcard_schema::schema::owned::OwnedDataModelType"]["variants"]]
         self.dat = [v["name"] for v in sc.adts["postcard_schema::schema::owned::OwnedData"]["variants"]]
-        # the float byte conversions stay visible as calls here: they are tokens of the arm abstraction
-        keep = {k: (lambda *a: NotImplemented) for k in sym.MODELS if k.startswith(("core::f32::", "core::f64::")) and "_bytes" in k}
-        eng = sym.Engine(F, inline=inline_policy, max_visits=3, max_paths=20000, max_steps=40000, models=keep)
+        eng = sym.Engine(F, inline=inline_policy, max_visits=3, max_paths=20000, max_steps=40000)
         eng.unfold = lambda fn, ev, st: fn.canon in (SER_FN, DE_FN) and _built_schema_ev(ev)
         eng.discr_events = lambda ty: ty.endswith("serde_json::Value") or ty.endswith("serde_json::value::Value")
         self.paths = [p for p in eng.run(self.fn) if p.status != "infeasible"]
@@ -186,7 +184,7 @@ class Arms:
             if nm in ("as_i64", "as_u64", "as_f64"):
                 return "json:" + nm
             if nm in ("from_f64",):
-                return "std:from_f64"
+                return "std:from_f64" + (":" + from_float_le(e["args"][0]) if from_float_le(e["args"][0]) else "")
             if "Map" in key and nm in ("insert", "new", "get", "len", "iter", "values", "keys"):
                 return None if nm in ("new", "len", "iter") else "std:map_" + nm
             if nm == "from" and "Number" in (c.get("self_ty") or ""):
@@ -198,10 +196,14 @@ class Arms:
             return "try_from:" + (c.get("self_ty") or "?")
         if tr.endswith("convert::From") and nm == "from":
             st = c.get("self_ty") or "?"
+            if st == "f64" and list(c.get("args") or [])[-1:] == ["f32"]:
+                return None      # lossless widening
             if st in ("f64", "f32"):
                 return "from:" + st
             return None      # integer widenings keep the value (and are evaluated by the engine's model)
         if tr.endswith("convert::Into") and nm == "into":
+            if list(c.get("args") or []) == ["f32", "f64"]:
+                return None      # lossless widening
             return "into:" + (c["args"][-1] if c["args"] else "?")
         if nm in ("to_le_bytes", "from_le_bytes", "to_be_bytes", "from_be_bytes"):
             return "%s:%s" % (nm, c.get("impl_self") or "?")
@@ -226,7 +228,7 @@ class Arms:
             elif e["args"][1][0] == "ref" and e["args"][1][1][0] == "S":
                 lo, hi = e["args"][1][1][2], e["args"][1][1][3]
                 if sym.is_c(lo) and sym.is_c(hi):
-                    kind = "le%d" % (hi[1] - lo[1])
+                    kind = float_le(e["snap"][1] if len(e.get("snap") or []) > 1 else None) or "le%d" % (hi[1] - lo[1])
             return "extend:" + kind
         if nm in NOISE:
             return None
@@ -235,6 +237,52 @@ class Arms:
         if key.startswith("core::panicking") or e["diverges"]:
             return "PANIC"
         return "std:" + nm
+
+
+def float_le(snap):
+    """'f32le' / 'f64le' when the array holds, in order, the little-endian bytes of the IEEE bits of an f32 / f64 value (decided on bit rows)"""
+    from bit import Bits, Top
+    if not (snap and snap[0] == "agg" and snap[1] == "array" and len(snap[5]) in (4, 8)):
+        return None
+    n = len(snap[5])
+    cands = [t for t in sym.subterms(snap[5][0]) if t[0] == "to_bits"]
+    b = Bits()
+    for x in cands:
+        try:
+            rows = b.rows(x)
+            if len(rows) != 8 * n:
+                continue
+            if all(b.equal_rows(b.rows(el), rows[8 * k:8 * k + 8]) for k, el in enumerate(snap[5])):
+                y = norm(x[1])
+                narrowed = y[0] == "cast" and y[-1] == "f32"
+                if n == 4 and narrowed:
+                    return "f32le"
+                if n == 8 and not narrowed:
+                    return "f64le"
+        except Top:
+            continue
+    return None
+
+
+def from_float_le(a):
+    """'f32le' / 'f64le' when the value is the float whose IEEE bits are the little-endian reading of n consecutive input bytes, in order"""
+    for t in sym.subterms(a):
+        if t[0] == "from_bits" and t[1][0] == "from_bytes" and t[1][1] == "le" and t[1][2] in ("u32", "u64"):
+            arr = t[1][3]
+            n = 4 if t[1][2] == "u32" else 8
+            if arr[0] == "agg" and arr[1] == "array" and len(arr[5]) == n:
+                idx = []
+                base = set()
+                for el in arr[5]:
+                    el = norm(el)
+                    if el[0] == "init" and el[1][0] == "I" and sym.is_c(el[1][2]):
+                        idx.append(el[1][2][1])
+                        base.add(el[1][1])
+                    else:
+                        return None
+                if idx == list(range(n)) and len(base) == 1:
+                    return "f32le" if n == 4 else "f64le"
+    return None
 
 
 def schema_arg_path(a):
